@@ -163,6 +163,14 @@ fn long_pattern() -> BoxedStrategy<String> {
         3 => long_needle().prop_map(|n| format!("*{n}")),
         3 => long_needle().prop_map(|n| format!("*{n}*")),
         1 => long_needle().prop_map(|n| format!("'{n}'")),
+        1 => long_needle().prop_map(|n| format!("\"{n}\"")),
+        // quotes that do not pair up are ordinary characters
+        1 => (long_needle(), 0u8..4).prop_map(|(n, k)| match k {
+            0 => format!("\"{n}'"),
+            1 => format!("'{n}\""),
+            2 => format!("\"{n}"),
+            _ => format!("{n}\""),
+        }),
         2 => prop::sample::select(vec!["?a", "?^a", "?b$", "?a.b", "?[ab]+c", "?é", "?^.a", "?\\d", "?a|B", "?.*ab.*"]).prop_map(|s| s.to_string()),
     ];
     (form, prop::bool::weighted(0.4))
@@ -188,6 +196,12 @@ fn haystacks_for(members: &[String], extra: &[String], variant: &[u8]) -> Vec<St
             },
             Err(_) => continue,
         };
+        // the text between the first and last character, which is what a wrongly unquoted pattern
+        // would look for
+        if core.chars().count() >= 2 {
+            let inner: String = core.chars().skip(1).take(core.chars().count() - 2).collect();
+            out.push(inner);
+        }
         let v = variant.get(i).copied().unwrap_or(0);
         let flip: String = core
             .chars()
